@@ -48,7 +48,7 @@ def gen_pairs(ctx):
                     calls = calls[:2]  # the node moved away: its old parent no longer applies
                 yield {"kind": "net", "nodes": nodes, "dut": dut, "calls": calls, "fault": None, "fault_k": 0,
                        "seed": 1000 + k, "profile": N.rand_profile(ctx.sub_rng("c07p", k), base=40000),
-                       "router": False}
+                       "router": False, "mc_off": k % 3 == 0}
 
 
 def gen_cases(ctx):
@@ -94,7 +94,8 @@ def gen_cases(ctx):
             fault = rng.choice([None, None, "ack_loss", "netack_loss", "frag_loss"])
             yield {"kind": "net", "nodes": nodes, "dut": dut, "calls": calls, "fault": fault,
                    "fault_k": rng.randrange(0, 6), "seed": rng.getrandbits(30),
-                   "profile": N.rand_profile(rng, base=base), "router": rng.random() < 0.2}
+                   "profile": N.rand_profile(rng, base=base), "router": rng.random() < 0.2,
+                   "mc_off": rng.random() < 0.2}
         else:
             master = rng.random() < 0.7
             calls = []
@@ -154,8 +155,7 @@ class Mon:
             ctx.violation("not-listening-after/%s/%s" % (op, why.split()[0].split("=")[0]),
                           "%s node %s after %s (%s): %s" % (nn.kind, oct(nn.obj.node_address), op,
                                                             outcome, why),
-                          self.case if self.case.get("kind") in ("net", "mesh") else
-                          {"kind": self.case["kind"], "seed": self.case["case"].get("seed")})
+                          self.case)
 
 
 def run_case(ctx, case):
@@ -242,7 +242,11 @@ def _run_net(ctx, case, net):
     Hdr, Frame = m["structs"].RF24NetworkHeader, m["structs"].RF24NetworkFrame
     for a in case["nodes"]:
         kind = "router" if (case["router"] and a != case["dut"] and a) else "net"
-        net.add(kind, a, profile=case["profile"])
+        def setup(o, a=a):
+            if a == case["dut"] and case.get("mc_off"):
+                o.allow_multicast = False
+                o.node_address = a  # the documented way to apply it
+        net.add(kind, a, profile=case["profile"], setup=setup)
     dut = net.bykey[case["dut"]]
     net.air.fault = _fault(case, net, dut.radio)
     for call in case["calls"]:
